@@ -15,6 +15,8 @@ def run_rel(prop, tier, seed, flavour="plain", extra_args=()):
     od = core.run_dir(prop, tier)
     paths = core.build(targets(flavour))
     res = core.run_sharded([{"name": "rel", "binary": paths["rel"], "nshards": core.NCPU, "out": od,
-                             "args": ["--seed", str(seed), "--tier", tier, "--prop", prop] + list(extra_args),
+                             "args": ["--seed", str(seed), "--tier", tier, "--prop", prop] + list(extra_args)
+                                     + core.deep(tier, **{"C03": dict(rescalings=262144), "C04": dict(operands=600000, histories=150000),
+                                                          "C05": dict(inputs=160000, operands=160000)}.get(prop, {})),
                              "env": core.SAN_ENV if flavour == "san" else None}], timeout=3600)
     return res
